@@ -50,6 +50,10 @@ class LoggingRollbackFailureManager(RollbackFailureManager):
         sim = core.CURRENT
         sim.log("RECOVER_CALL", job.name, step.name)
         sim.probe("recover_calls")
+        if not isinstance(exception, WorkflowExecutionException):
+            # injected faults and missing inputs are WorkflowExecutionExceptions; anything else was raised by
+            # repo/harness code tripping over state another recovery changed under it (probe only: not in the digest)
+            sim.probe("recover_unexpected:" + type(exception).__name__)
         ctl = sim.info["rec"]
         ctl.active_recoveries += 1
         if ctl.active_recoveries > 1:
